@@ -131,7 +131,7 @@ DFKnb2b(void *s, void *d, uint32 num_elm, uint32 source_stride, uint32 dest_stri
 
     if (fast_processing) {
         if (!in_place) {
-            memcpy(dest, source, num_elm * 2);
+            memcpy(dest, source, (size_t)num_elm * 2);
             return 0;
         }
         else { /* Nothing to do */
@@ -191,7 +191,7 @@ DFKnb4b(void *s, void *d, uint32 num_elm, uint32 source_stride, uint32 dest_stri
 
     if (fast_processing) {
         if (!in_place) {
-            memcpy(dest, source, num_elm * 4);
+            memcpy(dest, source, (size_t)num_elm * 4);
             return 0;
         }
         else { /* Nothing to do */
@@ -257,7 +257,7 @@ DFKnb8b(void *s, void *d, uint32 num_elm, uint32 source_stride, uint32 dest_stri
 
     if (fast_processing) {
         if (!in_place) {
-            memcpy(dest, source, num_elm * 8);
+            memcpy(dest, source, (size_t)num_elm * 8);
             return 0;
         }
         else {
